@@ -244,6 +244,56 @@ def http_object_occurs(sx, p):
     return sx.And(not ok, is_client_validation_fault(out.fault))
 
 
+@harness('C03', params=['default', 'soft', 'hier_delim=_'],
+         functions=['spyne.protocol.dictdoc.simple.SimpleDictDocument.simple_dict_to_object'],
+         bounds={'doc': 'a primitive array spelled with explicit indexes nums[i]=v: two or three pairs with symbolic 1-2 digit indexes '
+                        '(pairwise distinct numeric values, so 2 vs 10 is inside), symbolic digit values'})
+def primitive_array_index_order(sx, cfg):
+    """explicitly indexed primitive array elements arrive in numeric index order, whatever the order of the pairs"""
+    prot = PROTS[cfg]
+    n = sx.choose('n', [2, 3])
+    idx = [_idx_text(sx, 'i%d' % j) for j in range(n)]
+    iv = [sx.digits_value(t) for t in idx]
+    for j in range(n):
+        for k in range(j):
+            sx.assume(sx.Not(iv[j] == iv[k]))
+    vals = [sx.digits('v%d' % j, 1) for j in range(n)]
+    pairs = [('nums[' + idx[j] + ']', [vals[j]]) for j in range(n)] + [('a', ['7'])]
+    out = prot.simple_dict_to_object(CTX, sx.mkdict(pairs), Flat, prot.validator)
+    got = out.nums
+    if got is None or len(got) != n:
+        return False
+    ok = [out.a == 7]
+    for j in range(n):
+        rank = 0
+        for k in range(n):
+            rank = rank + sx.ite(iv[k] < iv[j], 1, 0)
+        for pos in range(n):
+            ok.append(sx.Implies(sx.eq(rank, pos), sx.eq(got[pos], sx.digits_value(vals[j]))))
+    return sx.And(*ok)
+
+
+@harness('C03', params=[(c, sh) for c in ('strict', 'strict+soft', 'default') for sh in ('Array', 'max_occurs')],
+         label=lambda p: '%s %s' % p,
+         functions=['spyne.protocol.dictdoc.simple.SimpleDictDocument.simple_dict_to_object'],
+         bounds={'doc': 'an array of 11 or 12 objects spelled b[0].v .. b[11].v (two-digit indexes next to one-digit ones), values '
+                        'symbolic digits'})
+def long_arrays(sx, p):
+    """arrays of more than ten elements: the contiguous spelling is accepted (also under strict_arrays) and the elements
+    arrive in index order"""
+    cfg, shape = p
+    prot = PROTS[cfg]
+    cls, arr = (Outer, 'b') if shape == 'Array' else (Outer2, 'c')
+    n = sx.choose('n', [11, 12])
+    vals = [sx.digits('v%d' % j, 1) for j in range(n)]
+    pairs = [('%s[%d].v' % (arr, j), [vals[j]]) for j in range(n)] + [('a', ['7'])]
+    out = prot.simple_dict_to_object(CTX, sx.mkdict(pairs), cls, prot.validator)
+    got = getattr(out, arr)
+    if got is None or len(got) != n:
+        return False
+    return sx.And(out.a == 7, *[sx.eq(got[j].v, sx.digits_value(vals[j])) for j in range(n)])
+
+
 class Pair(ComplexModel):
     __namespace__ = 'tns'
     one = Inner
